@@ -53,26 +53,48 @@ def run(ctx):
         def islnk_nondir(p):
             q = os.path.join(T.root, p)
             return os.path.islink(q) and not os.path.isdir(q)
+
+        def through_link(p):
+            parts = p.split('/')
+            return any(os.path.islink(os.path.join(T.root, *parts[:k])) for k in range(1, len(parts) + 1))
         segs = pp.split(':')[1].split('/')
-        gstar_last = segs[-1] in ('g', 'G') or (c['matchbase'] and len(segs) == 1)
         ngstar = sum(1 for s in segs if s in ('g', 'G')) + (1 if c['matchbase'] and len(segs) == 1 else 0)
-        kid = None
-        if only_glob and not only_match and all(islnk_nondir(p) for p in only_glob) and ngstar >= 1:
-            kid = 'C04-final-gstar-link-to-nondir'
-        elif only_match and not only_glob and pp.endswith(':T') and all(not os.path.isdir(os.path.join(T.root, p)) for p in only_match) and ngstar >= 1:
-            kid = 'C04-gstar-div-accepts-file'
-        elif ngstar >= 2 or (ngstar >= 1 and any(s not in ('g', 'G') and ('s' in s.split('.') or 'x' in s) for s in segs)):
-            # several ways to split the path between `**` and the other segments: only the first one is inspected
-            if only_glob and not only_match and all(any(os.path.islink(os.path.join(T.root, *p.split('/')[:k])) for k in range(1, len(p.split('/')) + 1)) for p in only_glob):
-                kid = 'C04-first-decomposition-only'
-        if kid is None and (globcommon.group_first(pp) or globcommon.star_then_wild(pp)) and all(globcommon.hid(p) for p in only_glob + only_match):
-            kid = 'C03-group-then-wild' if globcommon.group_first(pp) else 'C03-star-guard-inside-optional'
-        if kid is None and globcommon.group_first(pp):
-            kid = 'C02-group-segment-empty'
-        if kid is None and c['matchbase'] and all(globcommon.hid(p) for p in only_glob + only_match):
-            kid = 'C03-prefix-gstar-hidden'
-        if kid and ctx.is_known(lambda e, kid=kid: e['id'] == kid):
-            known.setdefault(kid, (pattern, corr.flag_names(fv), only_glob[:3], only_match[:3]))
+        multi = ngstar >= 2 or (ngstar >= 1 and any(s not in ('g', 'G') and ('s' in s.split('.') or 'x' in s) for s in segs))
+        merged_mb = c['matchbase'] and c['follow'] and c['globstarlong'] and len(segs) > 1 and all(s in ('g', 'G') for s in segs)
+
+        def explain(p, side):
+            full = os.path.join(T.root, p)
+            out = []
+            if side == 'glob' and islnk_nondir(p) and ngstar >= 1:
+                out.append('C04-final-gstar-link-to-nondir')
+            if side == 'match' and pp.endswith(':T') and not os.path.isdir(full) and ngstar >= 1:
+                out.append('C04-gstar-div-accepts-file')
+            if side == 'glob' and multi and through_link(p):
+                out.append('C04-first-decomposition-only')
+            if (globcommon.group_first(pp) or globcommon.star_then_wild(pp)) and globcommon.hid(p):
+                out.append('C03-group-then-wild' if globcommon.group_first(pp) else 'C03-star-guard-inside-optional')
+            if globcommon.group_first(pp):
+                out.append('C02-group-segment-empty')
+            if c['matchbase'] and globcommon.hid(p) and side == 'match':
+                out.append('C03-prefix-gstar-hidden')
+            if merged_mb and through_link(p):
+                out.append('C05-matchbase-merged-globstars')
+            return [k for k in out if ctx.is_known(lambda e, k=k: e['id'] == k)]
+        kids = set()
+        unexplained = []
+        for p in only_glob:
+            ks = explain(p, 'glob')
+            kids.update(ks[:1])
+            if not ks:
+                unexplained.append(p)
+        for p in only_match:
+            ks = explain(p, 'match')
+            kids.update(ks[:1])
+            if not ks:
+                unexplained.append(p)
+        if not unexplained:
+            for kid in kids:
+                known.setdefault(kid, (pattern, corr.flag_names(fv), only_glob[:3], only_match[:3]))
             return
         ctx.counterexample('glob(%r, %s) and globmatch(REALPATH) disagree: only glob %r, only globmatch %r' % (
             pattern, corr.flag_names(fv), only_glob[:4], only_match[:4]),
